@@ -18,7 +18,8 @@ desc NAME                                 -> ok KIND NPIX NMODES ROWS
 lc NAME COEFFS                            -> ok VECTOR
 get NAME DST new|old int K | slice A B C | list [..] | mask [0,1,..]
                                           -> ok mode VECTOR | ok basis KIND NPIX NMODES ROWS | err index|value
-add A B DST | tosparse A DST | todense A DST -> ok KIND NPIX NMODES ROWS | err value
+add A B DST | extend A B DST | append A VEC DST | tosparse A DST | todense A DST
+                                          -> ok KIND NPIX NMODES ROWS | err value
 nnz NAME                                  -> ok N   (stored entries; dense: npix*nmodes)
 lstsq NAME VECTOR                         -> ok VECTOR | err rank
 mirror new NPIX NMODES ROWS | assign V | alias H | edit H I X | flatten | random V
@@ -186,6 +187,20 @@ def step (st : St) : List String → St × String
     match lookup st a, lookup st b with
     | some a, some b =>
       match add a b with
+      | some r => (store st dst r, "ok " ++ desc r)
+      | none => (st, "err value")
+    | _, _ => (st, "bad-op")
+  | ["extend", a, b, dst] =>
+    match lookup st a, lookup st b with
+    | some a, some b =>
+      match extend a b with
+      | some r => (store st dst r, "ok " ++ desc r)
+      | none => (st, "err value")
+    | _, _ => (st, "bad-op")
+  | ["append", a, v, dst] =>
+    match lookup st a, parseVec? v with
+    | some a, some v =>
+      match append a v with
       | some r => (store st dst r, "ok " ++ desc r)
       | none => (st, "err value")
     | _, _ => (st, "bad-op")
